@@ -202,6 +202,9 @@ func FamilyScenario(family string, seed int64, i, blocks, maxTx int) *Scenario {
 	if family == "eth5" {
 		gs = EthGenesis5()
 	}
+	if family == "erc20" {
+		gs = Erc20Genesis()
+	}
 	if family == "olvm" {
 		gs = OlvmGenesis()
 	}
